@@ -354,30 +354,51 @@ def rule_placement(model):
                 rte = fi
     if rte is None:
         raise AnalysisError('Try: find_handler call not found')
-    hv = None
+    # the handler found may be rendered in place or handed to a helper
+    # method: follow the value
+    todo = []
     for n in own_nodes(rte.node):
         if isinstance(n, ast.Assign) and isinstance(n.value, ast.Call) and \
                 isinstance(n.value.func, ast.Attribute) and \
                 n.value.func.attr == 'find_handler' and \
                 isinstance(n.targets[0], ast.Name):
-            hv = n.targets[0].id
+            todo.append((rte, n.targets[0].id))
     found = 0
-    for n in own_nodes(rte.node):
-        if isinstance(n, ast.Call) and n.args and \
-                isinstance(n.args[0], ast.Name) and n.args[0].id == hv and \
-                'render_blocks' in ' '.join(model.callee_names(n, rte)):
-            found += 1
-            tries = try_protection(n, rte)
-            inner = tries[0] if tries else None
-            ok = inner is not None and not inner.handlers and \
-                inner.finalbody
-            r.instance(rte.where, n, 'handler body render')
-            if not ok:
-                r.finding(rte.where, n, 'the handler body is rendered under '
-                          'a try with except clauses (or without finally): '
-                          'exceptions raised in a handler must propagate',
-                          node=n, ctx=rte)
-            # and the whole thing sits in a handler of the body's try
+    seen = set()
+    while todo:
+        fn, hv = todo.pop()
+        if (fn.where, hv) in seen:
+            continue
+        seen.add((fn.where, hv))
+        for n in own_nodes(fn.node):
+            if not isinstance(n, ast.Call):
+                continue
+            names = ' '.join(model.callee_names(n, fn))
+            has = [i for i, a in enumerate(n.args)
+                   if isinstance(a, ast.Name) and a.id == hv]
+            if not has:
+                continue
+            if 'render_blocks' in names and has[0] == 0:
+                found += 1
+                tries = try_protection(n, fn)
+                inner = tries[0] if tries else None
+                ok = inner is not None and not inner.handlers and \
+                    inner.finalbody
+                r.instance(fn.where, n, 'handler body render')
+                if not ok:
+                    r.finding(fn.where, n, 'the handler body is rendered '
+                              'under a try with except clauses (or without '
+                              'finally): exceptions raised in a handler '
+                              'must propagate', node=n, ctx=fn)
+            else:
+                for t in model.resolve_callee(n.func, fn):
+                    if t[0] == 'func' and t[1].cls is tcls:
+                        hp = t[1].params()[1:]
+                        for i in has:
+                            if i < len(hp):
+                                todo.append((t[1], hp[i]))
+                        # the helper call itself must not be guarded by an
+                        # except clause either (besides the body's own try)
     if not found:
         raise AnalysisError('Try: handler body render site not found')
     r.require_floor(3)
